@@ -53,6 +53,10 @@ func main() {
 		err = core.RunFamily(core.HashFamily(), w, *seed, *tier, *replay)
 	case "set":
 		err = core.RunFamily(core.SetFamily(), w, *seed, *tier, *replay)
+	case "aclz":
+		err = core.RunAclZ(w, *seed, *tier, *replay)
+	case "acla":
+		err = core.RunAclA(w, *seed, *tier, *replay)
 	case "gen-facts":
 		err = core.GenFacts(*leanDir)
 	default:
